@@ -493,6 +493,78 @@ func TestKnown_C18_StartOverSurvivingClaim(t *testing.T) {
 	}
 }
 
+// storepolicy(leaderID).leader_consistent_id: follower-side code overwrites leaderID outside the
+// mutex after an unlocked IsLeader() check; a promotion that lands in between leaves a leader
+// whose Status() names another instance.
+func kLeaderIDRace(t *testing.T, followerPath func(e *kvElection, kv *natsmock.MockKeyValue, promote func())) {
+	cfg := kCfg()
+	cfg.Priority = 1
+	cfg.AllowPriorityTakeover = true
+	lg := &kLogger{on: map[string]func(){}}
+	cfg.Logger = lg
+	e, kv := kElection(t, cfg)
+	pb, _ := json.Marshal(leadershipPayload{ID: "B", Token: "tB", Priority: 9})
+	if _, err := kv.Create("g", pb); err != nil {
+		t.Fatal(err)
+	}
+	_ = e.Start(context.Background())
+	WaitForLeader(t, e, false, time.Second)
+	time.Sleep(700 * time.Millisecond) // the Start round is over
+	promote := func() { // B's record goes away and A wins the key, between A's leader check and its store
+		_ = kv.Delete("g")
+		if err := e.attemptAcquire(); err != nil {
+			t.Errorf("promotion inside the window failed: %v", err)
+		}
+	}
+	followerPath(e, kv, func() { lg.set("leader_changed", promote); lg.set("leader_changed_periodic_check", promote) })
+	st := e.Status()
+	e.Stop()
+	if st.IsLeader && st.LeaderID != "A" {
+		t.Fatalf("VIOLATION-REPRODUCED: Status() of the leader: IsLeader=%v State=%s LeaderID=%q (own id is A)", st.IsLeader, st.State, st.LeaderID)
+	}
+}
+
+func TestKnown_C18_LeaderIDStoreRacesWithPromotion_WatchEvent(t *testing.T) {
+	kLeaderIDRace(t, func(e *kvElection, kv *natsmock.MockKeyValue, arm func()) {
+		pb, _ := json.Marshal(leadershipPayload{ID: "B", Token: "tB", Priority: 9})
+		e.leaderID.Store("X") // A last knew X as leader
+		arm()
+		e.handleWatchEvent(kEntry{v: pb, rev: 1})
+	})
+}
+
+func TestKnown_C18_LeaderIDStoreRacesWithPromotion_PeriodicCheck(t *testing.T) {
+	kLeaderIDRace(t, func(e *kvElection, kv *natsmock.MockKeyValue, arm func()) {
+		pb, _ := json.Marshal(leadershipPayload{ID: "B", Token: "tB", Priority: 9})
+		e.leaderID.Store("X")
+		arm()
+		// the periodic check reads B's record, then logs, then stores
+		kv.SetGetFunc(func(key string) (natsmock.Entry, error) {
+			return &natsmock.MockEntryImpl{KeyVal: "g", ValueVal: pb, RevVal: 1}, nil
+		})
+		e.checkKeyAndReelect(context.Background())
+		kv.SetGetFunc(nil)
+	})
+}
+
+func TestKnown_C18_LeaderIDStoreRacesWithPromotion_Takeover(t *testing.T) {
+	kLeaderIDRace(t, func(e *kvElection, kv *natsmock.MockKeyValue, arm func()) {
+		pb, _ := json.Marshal(leadershipPayload{ID: "B", Token: "tB", Priority: 9})
+		own, _ := json.Marshal(leadershipPayload{ID: "A", Token: "x", Priority: 1})
+		var once sync.Once
+		kv.SetGetFunc(func(key string) (natsmock.Entry, error) {
+			// the read of the lost-takeover branch returns B's record; before A stores B's id, A wins the key
+			once.Do(func() {
+				kv.SetGetFunc(nil)
+				_ = kv.Delete("g")
+				_ = e.attemptAcquire()
+			})
+			return &natsmock.MockEntryImpl{KeyVal: "g", ValueVal: pb, RevVal: 1}, nil
+		})
+		_ = e.attemptPriorityTakeover(own)
+	})
+}
+
 // C19.cancelled_on_demotion: the promotion context outlives the term.
 func TestKnown_C19_PromoteContextSurvivesDemotion(t *testing.T) {
 	e, _ := kElection(t, kCfg())
